@@ -26,6 +26,60 @@ RAISING = {
 }
 
 
+_HOSTILE_MEMO = {}
+
+
+def hostile_str_params(fi, res, _busy=()):
+    """str-annotated parameters of fi that can carry attacker-controlled text.  For a public function: all of them.
+    A private helper only sees what its callers pass: a parameter is hostile only if some call site passes something
+    other than a literal, a digest, or a caller's own non-hostile parameter (decided recursively)."""
+    if not hasattr(fi.node, "args"):
+        return set()
+    strparams = {a.arg for a in fi.node.args.args if a.annotation is not None and "str" in src(a.annotation)}
+    if not (fi.name.startswith("_") and not fi.name.startswith("__") and strparams):
+        return strparams
+    key = (id(res.p), fi.key)
+    if key in _HOSTILE_MEMO:
+        return _HOSTILE_MEMO[key]
+    if fi.key in _busy:
+        return strparams
+    params = [a.arg for a in fi.node.args.args]
+    hostile = set()
+    sites = res.callers_of(fi)
+    for caller, call in sites:
+        caller_str = {a.arg for a in caller.node.args.args if a.annotation is not None and "str" in src(a.annotation)} if hasattr(caller.node, "args") else set()
+        caller_hostile = hostile_str_params(caller, res, _busy + (fi.key,)) if caller is not fi else strparams
+
+        def clean(a):
+            if isinstance(a, ast.Constant):
+                return True
+            if isinstance(a, ast.Name):
+                if a.id in caller_str and a.id not in caller_hostile:
+                    return True
+                defs = [n.value for n in ast.walk(caller.node) if isinstance(n, ast.Assign) and any(isinstance(t, ast.Name) and t.id == a.id for t in n.targets)]
+                return bool(defs) and all(_is_digest(d) or isinstance(d, ast.Constant) for d in defs)
+            if isinstance(a, ast.JoinedStr):
+                return all(isinstance(v, ast.Constant) or (isinstance(v, ast.FormattedValue) and clean(v.value)) for v in a.values)
+            return _is_digest(a)
+        off = 1 if params and params[0] == "self" and isinstance(call.func, ast.Attribute) else 0
+        for i, a in enumerate(call.args):
+            if i + off < len(params) and params[i + off] in strparams and not clean(a):
+                hostile.add(params[i + off])
+        for k in call.keywords:
+            if k.arg in strparams and not clean(k.value):
+                hostile.add(k.arg)
+    out = hostile if sites else strparams
+    _HOSTILE_MEMO[key] = out
+    return out
+
+
+def _is_digest(e):
+    """`….hexdigest()` possibly sliced: ASCII hex, never hostile"""
+    if isinstance(e, ast.Subscript):
+        e = e.value
+    return isinstance(e, ast.Call) and isinstance(e.func, ast.Attribute) and e.func.attr == "hexdigest"
+
+
 def exceptions_of(n, fi, summary, res):
     out = set()
     if isinstance(n, ast.Raise):
@@ -36,21 +90,7 @@ def exceptions_of(n, fi, summary, res):
         return {d.split(".")[-1]} if d else {"*"}
     if isinstance(n, ast.Assert):
         return {"AssertionError"}
-    strparams = {a.arg for a in fi.node.args.args if a.annotation is not None and "str" in src(a.annotation)} if hasattr(fi.node, "args") else set()
-    if fi.name.startswith("_") and not fi.name.startswith("__") and strparams:
-        # a private helper only sees what its callers pass: a str parameter is hostile only if some call site passes a non-literal
-        params = [a.arg for a in fi.node.args.args]
-        hostile = set()
-        sites = res.callers_of(fi)
-        for caller, call in sites:
-            off = 1 if params and params[0] == "self" and isinstance(call.func, ast.Attribute) else 0
-            for i, a in enumerate(call.args):
-                if i + off < len(params) and params[i + off] in strparams and not isinstance(a, ast.Constant):
-                    hostile.add(params[i + off])
-            for k in call.keywords:
-                if k.arg in strparams and not isinstance(k.value, ast.Constant):
-                    hostile.add(k.arg)
-        strparams = hostile if sites else strparams
+    strparams = hostile_str_params(fi, res)
     tainted = set(strparams) | _derived_from(fi, strparams)
     todo = [n]
     while todo:
